@@ -124,6 +124,12 @@ let judge op args got =
   | "cl" ->
       let m = a 1 and x = a 2 in
       verdict2 m ("ok " ^ hx (dbl_spec m x)) (render hx (run_un ODbl m x)) (render hx (hrun_un ODbl m x))
+  | "clx" ->
+      (* clone / clone_from into a destination of another ring: the destination IS the source afterwards *)
+      let m1 = a 1 and m2 = a 2 and x = a 3 and y = a 4 and c = a 5 in
+      let want = "ok " ^ hx m1 ^ " " ^ hx (reduce_spec m1 x) ^ " 1 " ^ hx (reduce_spec m1 (Zar.add x c)) in
+      let asis = render (fun (((md, rs), e), sv) -> hx md ^ " " ^ hx rs ^ " " ^ b2s e ^ " " ^ hx sv) (run_clone_from m1 m2 x y c) in
+      expect ~extra:(fid asis got ^ " cls=" ^ kind_s m1 ^ ">" ^ kind_s m2) want got
   | "mix" ->
       (* two ConstDivisor instances, whatever their moduli: the documented panic *)
       let m1 = a 1 and m2 = a 2 and x = a 3 and y = a 4 in
